@@ -14,7 +14,10 @@ META = {
     'rule': ('Hypothesis-generated (model spec, recipe, calibration seeds): DAGs '
              'of 1..8 (quick) / 12 (thorough) nodes over the 21 supported ops '
              'plus unsupported float ops, 1..3 subgraphs, shared constants; '
-             'shipped recipes or 1..5 generated rules. Non-trivial = quantize() '
+             'shipped recipes or 1..5 generated rules; signature entries / '
+             'signature list permuted, tensors listed twice in the outputs, hub '
+             'graphs, the Quantizer used between two updates or calibrated '
+             'before, batched calibration samples. Non-trivial = quantize() '
              'returned, the result contains >= 1 inserted QUANTIZE/DEQUANTIZE '
              'and the graph has a multi-consumer tensor, a repeated operand, an '
              'exported-and-consumed tensor or an exported tensor produced at op '
